@@ -463,12 +463,17 @@ class Renderer:
                 src = "".join({"'": "&apos;", '"': "&quot;", "%": "&#37;"}.get(c, c) for c in mid)
                 self.entities.append((name, lq, src))
                 return render_attr_value(v[:a], rnd, q) + "&" + name + ";" + render_attr_value(v[b2:], rnd, q)
+        if self.hoist and ent_q is None and rnd.random() < 0.1:
+            k = rnd.randint(0, len(v))
+            return render_attr_value(v[:k], rnd, q) + self.empty_entity() + render_attr_value(v[k:], rnd, q)
         return render_attr_value(v, rnd, q, ent_q is not None)
 
     def content(self, children, ent_q=None):
         rnd = self.rnd
         out = []
         i = 0
+        if self.hoist and ent_q is None and children and rnd.random() < 0.1:
+            out.append(self.empty_entity())
         while i < len(children):
             if self.hoist and ent_q is None and rnd.random() < 0.3:
                 j = rnd.randint(i + 1, len(children))
@@ -489,7 +494,18 @@ class Renderer:
                 continue
             out.append(self.node(children[i], ent_q))
             i += 1
+            if self.hoist and ent_q is None and rnd.random() < 0.1:
+                out.append(self.empty_entity())
         return "".join(out)
+
+    def empty_entity(self):
+        """a reference to an entity whose replacement text is empty: equivalent to nothing"""
+        for (name, lq, src) in [e for e in self.entities if e]:
+            if src == "":
+                return "&" + name + ";"
+        name = "ez%d" % len(self.entities)
+        self.entities.append((name, self.rnd.choice("'\""), ""))
+        return "&" + name + ";"
 
     def node(self, c, ent_q=None):
         rnd = self.rnd
